@@ -149,7 +149,9 @@ func (c *xmlCtx) applyChildren(st DevState, p Path, n *Node, elems []*etree.Elem
 				eff = "merge"
 			}
 			kids := e.ChildElements()
-			if len(kids) == 0 && cn.Presence {
+			if cn.Presence {
+				// merge semantics (RFC 6241 7.2): the node the element identifies is merged into the configuration, i.e. created
+				// if it does not exist - also when its children only carry delete operations
 				st.Set(&Leaf{Path: cp, Abs: "empty"})
 			}
 			c.applyChildren(st, cp, cn, kids, eff)
